@@ -8,9 +8,11 @@
   `opts.schemas` is the type table (initial entries and `ForOptions.TypeSchemas`), whose schemas live in `st`.
 -/
 import JSV.Proofs.InfEqns
+import JSV.Proofs.InfNamed
 import JSV.Proofs.InfEmbCons
 import JSV.Proofs.InfEmbDom
 import JSV.Proofs.InfEmbWalk
+import JSV.Proofs.InfEmbNamed
 namespace JSV.C16
 open JSV Go EncJson
 
@@ -321,6 +323,67 @@ theorem typeTable_clone_fresh (opts : IOpts) (fuel : Nat) (nm : String) (u : GoT
       rw [hnone] at hcn
       cases hcn
 
+/-! ## declared (named) types without a type-table entry
+
+  `EncJson.erase T`: `T` with every declared type replaced by its underlying type; `EncJson.NamedOk opts strs [] T`
+  (decidable): every declared type of `T` that is not one of the marshaler types `strs` has no entry in the type table,
+  an underlying type that is a basic kind, slice, array, map or struct, and no name occurs twice along a root-to-leaf
+  path; the marshaler types `strs` have the entry `{"type":"string"}` (`EncJson.StrEntries`) and are written
+  `.named n (.basic "String")`.  Helper lemmas: JSV/Proofs/InfNamed.lean. -/
+
+/-- a declared type that is not in the type table and not being expanded is treated like its underlying type: the
+    only effect is that its name is entered into `seen` (for a pointer to it `null` is added as for the underlying
+    type) -/
+theorem named_pushes_seen (opts : IOpts) (fuel : Nat) (nm : String) (u : GoType) (seen : List String) (st : Store)
+    (hs : Json.lookup nm opts.schemas = none) (hseen : seen.contains nm = false) (hsh : namedShape u = true) :
+    inferFuel opts (fuel + 1) (.named nm u) seen st = inferFuel opts (fuel + 1) u (nm :: seen) st ∧
+    inferFuel opts (fuel + 1) (.ptr (.named nm u)) seen st = inferFuel opts (fuel + 1) (.ptr u) (nm :: seen) st :=
+  ⟨inferStep_named_transparent (t0 := .named nm u) (an := false) rfl hseen hs hsh,
+   inferStep_named_transparent (t0 := .ptr (.named nm u)) (an := true) rfl hseen hs hsh⟩
+
+/-- **declared types are transparent**: on a type whose declared types are transparent (`NamedOk`) `ForType` is
+    `ForType` on the erased type — the same outcome, the same schema, the same store; for a marshaler type of the table
+    (entry `{"type":"string"}`) the clone of the entry is the schema of the kind `string` -/
+theorem forType_named_transparent (opts : IOpts) (strs : List String) (fuel : Nat) (T : GoType) (st : Store)
+    (hst : StrEntries opts.schemas strs st) (hok : NamedOk opts strs [] T = true) :
+    forType opts fuel T st = forType opts fuel (erase T) st :=
+  forType_erase opts strs fuel T st hst hok
+
+/-- the schema of a declared struct type `type N struct {…}` without a type-table entry (whatever the field types) -/
+theorem struct_schema_named (opts : IOpts) (fuel : Nat) (nm : String) (fields : List (String × String × GoType))
+    (st : Store) (id : NodeId) (st' : Store) (hi : opts.ignore = false) (hs : Json.lookup nm opts.schemas = none)
+    (h : forType opts (fuel + 1) (.named nm (.struct fields)) st = .ok (some id, st')) :
+    ∃ n, st'.get? id = some n ∧ n.type = "object" ∧
+      n.required.getD [] = alwaysNames fields ∧
+      (∀ k, k ∈ (n.properties.getD []).map (·.1) ↔ k ∈ jsonNames fields) ∧
+      (nodup (jsonNames fields) = true → n.propertyOrder.getD [] = jsonNames fields) := by
+  change inferFuel opts (fuel + 1) (.named nm (.struct fields)) [] st = _ at h
+  rw [(named_pushes_seen opts fuel nm (.struct fields) [] st hs rfl rfl).1] at h
+  exact inferStep_struct_schema hi h
+
+/-- … a field's JSON name is required iff its tag has neither omitempty nor omitzero (distinct JSON names) -/
+theorem required_iff_not_omit_named (opts : IOpts) (fuel : Nat) (nm : String) (fields : List (String × String × GoType))
+    (st : Store) (id : NodeId) (st' : Store) (hi : opts.ignore = false) (hs : Json.lookup nm opts.schemas = none)
+    (hd : nodup (jsonNames fields) = true)
+    (h : forType opts (fuel + 1) (.named nm (.struct fields)) st = .ok (some id, st'))
+    (f : String × String × GoType) (hf : f ∈ fields) (ho : (fieldJSONInfo f.1 f.2.1).omitted = false) :
+    ∃ n, st'.get? id = some n ∧
+      ((fieldJSONInfo f.1 f.2.1).name ∈ n.required.getD [] ↔
+        ((fieldJSONInfo f.1 f.2.1).omitempty = false ∧ (fieldJSONInfo f.1 f.2.1).omitzero = false)) := by
+  obtain ⟨n, hn, _, hr, _⟩ := struct_schema_named opts fuel nm fields st id st' hi hs h
+  exact ⟨n, hn, by rw [hr]; exact mem_alwaysNames_iff hd hf ho⟩
+
+/-- … `propertyOrder` is the list of JSON names of the non-omitted fields in declaration order, and the keys of
+    `properties` are the same names (distinct JSON names) -/
+theorem propertyOrder_is_field_order_named (opts : IOpts) (fuel : Nat) (nm : String)
+    (fields : List (String × String × GoType)) (st : Store) (id : NodeId) (st' : Store) (hi : opts.ignore = false)
+    (hs : Json.lookup nm opts.schemas = none) (hd : nodup (jsonNames fields) = true)
+    (h : forType opts (fuel + 1) (.named nm (.struct fields)) st = .ok (some id, st')) :
+    ∃ n, st'.get? id = some n ∧ n.propertyOrder.getD [] = jsonNames fields ∧
+      ∀ k, k ∈ (n.properties.getD []).map (·.1) ↔ k ∈ jsonNames fields := by
+  obtain ⟨n, hn, _, _, hp, hpo⟩ := struct_schema_named opts fuel nm fields st id st' hi hs h
+  exact ⟨n, hn, hpo hd, hp⟩
+
 /-! ## the tag parser -/
 
 /-- no `json` key in the tag: the Go field name, nothing omitted -/
@@ -398,6 +461,23 @@ example : forType {} 5 (.named "L" (.slice (.ref "L"))) #[] = .err :=
   (recursive_slice_errors {} 3 "L" #[] rfl).1
 
 
+/-- `type Level int8; type IDs []Level`: the schema of `[]int8` (`forType_named_transparent` applied) -/
+example : forType {} 3 (.named "IDs" (.slice (.named "Level" (.basic "Int8")))) #[] =
+    forType {} 3 (.slice (.basic "Int8")) #[] :=
+  forType_named_transparent {} [] 3 _ #[] (fun _ h => nomatch h) (by decide)
+
+/-- … evaluated: two nodes, `null` from the slice rule, integer items -/
+example : (match forType {} 3 (.named "IDs" (.slice (.named "Level" (.basic "Int8")))) #[] with
+    | .ok (some id, st') => (id, st'.size, (st'.get? id).map (·.types), (st'.get? 0).map (·.type))
+    | _ => (0, 0, none, none)) = (1, 2, some (some ["null", "array"]), some "integer") := by decide
+
+/-- the same declared type at two sibling positions is fine (`seen` is path-local) … -/
+example : NamedOk {} [] [] (.struct [("A", "", .named "P" (.basic "Int")), ("B", "", .slice (.named "P" (.basic "Int")))])
+    = true := by decide
+
+/-- … twice along one path it is the cycle check's business -/
+example : NamedOk {} [] [] (.named "P" (.slice (.named "P" (.basic "Int")))) = false := by decide
+
 /-! ## embedded struct fields (`forTypeE`, JSV/Model/InferEmb.lean; encoding/json side: JSV/Spec/EncJsonEmb.lean)
 
   `Go.forTypeE opts fuel T st` is the model of `ForType` on the type language with embedded fields `GoTypeE`
@@ -466,6 +546,15 @@ theorem forTypeE_conservative (opts : IOpts) (fuel : Nat) (T : GoType) (st : Sto
     forTypeE opts fuel T.toE st = forType opts fuel T st :=
   inferFuelE_toE opts fuel T [] st hd
 
+open EncJsonEmb in
+/-- **declared types in non-embedded positions are transparent** for `forTypeE` as well: on a type whose declared types
+    are transparent (`NamedOkE`: no entry in the type table, no name twice along a path; the declared types of embedded
+    fields are not constrained) `ForType` is `ForType` on the type with these declared types replaced by their underlying
+    types (`eraseE`; the types of embedded fields keep their names) — the same outcome, the same schema, the same store -/
+theorem forTypeE_named_transparent (opts : IOpts) (fuel : Nat) (T : GoTypeE) (st : Store)
+    (hok : NamedOkE opts [] T = true) : forTypeE opts fuel T st = forTypeE opts fuel (eraseE T) st :=
+  forTypeE_erase opts fuel T st hok
+
 /-- … the hypothesis is needed: two fields of one Go name at one depth hide each other in reflect.VisibleFields -/
 example : (visibleFields (fieldsToE [("A", "", .basic "Int"), ("A", "", .basic "Int")])).length = 0 := by decide
 
@@ -480,9 +569,8 @@ open EncJsonEmb in
     omitzero.
 
     Partial, what is missing: (1) types outside `InDomainE` — a JSON name shared by two Go names is the known
-    finding D14 (see the witness below), tagged or non-struct or unexported embedded fields are D16; (2) named
-    (declared) types in non-embedded positions, as in C04/C09 (`InDomain` has none; they are covered by
-    `typeTable_substituted`); (3) overrides of embedded types: the full statement would add the override's property
+    finding D14 (see the witness below), tagged or non-struct or unexported embedded fields are D16; (2) declared
+    types in non-embedded positions: these are in `properties_eq_encjson_named_partial`; (3) overrides of embedded types: the full statement would add the override's property
     names (sorted, where absent) at the position of the embedded field and drop the promoted fields below it:
       propertyOrder = dedupKeepLast (the names entered by `structLoopE` field by field)
     which `structLoopE` computes but no theorem here states. -/
@@ -499,6 +587,29 @@ theorem properties_eq_encjson_partial (opts : IOpts) (fuel : Nat) (fields : List
     inferStepE_struct_names (inferFuelE_some opts fuel) (t0 := .struct fields) (an := false) rfl hdom hno h
   cases hid
   rw [addNull_false] at hn
+  exact ⟨n, hn, h1, h2, h3, h4⟩
+
+open EncJsonEmb in
+/-- **properties = encoding/json's fields, with declared types in non-embedded positions (partial)**: as
+    `properties_eq_encjson_partial`, for a struct whose field types (at any depth, those of the fields of embedded structs
+    included) may be declared types without a type-table entry (`InDomainEN`, `NamedOkE`, see
+    `C04.infer_soundE_named_partial`): the names, their order and `required` are those of `typeFields` of the struct
+    itself — encoding/json's field list does not depend on whether a field's type is declared.  Partial in the same sense
+    as `properties_eq_encjson_partial`. -/
+theorem properties_eq_encjson_named_partial (opts : IOpts) (fuel : Nat) (fields : List (FieldE GoTypeE)) (st : Store)
+    (id : NodeId) (st' : Store) (hdom : InDomainEN (.struct fields) = true)
+    (hok : NamedOkE opts [] (.struct fields) = true) (hno : NoOverride opts (visibleFields fields))
+    (h : forTypeE opts (fuel + 1) (.struct fields) st = .ok (some id, st')) :
+    ∃ n, st'.get? id = some n ∧ n.type = "object" ∧
+      n.propertyOrder.getD [] = fieldNames fields ∧
+      (∀ k, k ∈ (n.properties.getD []).map (·.1) ↔ k ∈ fieldNames fields) ∧
+      n.required.getD [] = alwaysFieldNames fields := by
+  rw [forTypeE_erase opts (fuel + 1) _ st hok] at h
+  have hdom' : InDomainE (.struct (eraseFieldsE fields)) = true := hdom
+  obtain ⟨n, hn, h1, h2, h3, h4⟩ := properties_eq_encjson_partial opts fuel (eraseFieldsE fields) st id st' hdom'
+    (noOverride_erase hno) h
+  rw [(fieldNames_erase fields).1] at h2 h3
+  rw [(fieldNames_erase fields).2] at h4
   exact ⟨n, hn, h1, h2, h3, h4⟩
 
 open EncJsonEmb in
